@@ -300,7 +300,15 @@ class World:
 
 
 def run(coro):
-    return asyncio.run(coro)
+    """asyncio.run under CPython's DEFAULT recursion limit: the check process raises the limit for the symbolic executor,
+    but the real server must meet RecursionError exactly where a production process would"""
+    import sys
+    old = sys.getrecursionlimit()
+    sys.setrecursionlimit(1000)
+    try:
+        return asyncio.run(coro)
+    finally:
+        sys.setrecursionlimit(old)
 
 
 # ---------------------------------------------------------------- a client-side model of one selected mailbox
